@@ -9,6 +9,13 @@ def repo_commits(prefix):
     return [l.split()[0] for l in out.splitlines() if l.split(" ", 1)[1].startswith(prefix)]
 
 CLAIMS = {
+    "C12": dict(
+        level="exploration",
+        technique="model-based stateful property testing: reference track-tree model (five-state machine per track, freeze propagation, removal / persistence rules) evaluated in f64 alongside a real AudioManager over generated pause / resume / resume_at / drop histories with index-coded sounds",
+        text="Track trees with index-coded probe sounds and DC static sounds (start delays, fade-ins) are driven through pause / resume / resume_at (delayed, clock) histories with timed fades on any node, clock adds/drops and handle drops in any order with persistence on or off; every output frame is compared with the reference model (so a frozen subtree must be exactly silent and must continue from exactly the frozen frame, delays and fades included), TrackHandle::state() is called on every live handle after every callback and must return one of the five states within one callback of the reference, and the sub-track / sound counts must match the removal rules. Search with shrinking.",
+        note="Linear fades with immediate start; the clock is a real kira clock modelled as speed x audio time. The known finding (resume_at on a dropped clock) is excluded by construction and replayed as a witness.",
+        design="5/C12",
+    ),
     "C02": dict(
         level="exploration",
         technique="model-based stateful property testing: independent f64 signal-flow evaluator for the whole mixer run alongside a real AudioManager over generated build/drop/pause/volume histories, plus audit of probe sound/effect call logs",
